@@ -49,6 +49,7 @@ type UserEvent struct {
 	AtStep  int    `json:"atStep"`
 	AtState string `json:"atState"`
 	Arg     int    `json:"arg"`
+	After   string `json:"after,omitempty"` // follow-up: fires Arg seconds after the named earlier event
 	Done    bool   `json:"-"`
 }
 
